@@ -96,11 +96,12 @@ package dnsserver
 // 65535 bytes is an error, never a truncated prefix.
 //
 //@ func packWithPrefix
-//@   property C08
+//@   property C08 C01
 //@   requires m != nil
-//@   modifies allelems(byte), m.Compress
+//@   modifies allelems(byte), m.Compress, pk, pkLen
 //@   ensures stream-bound: err == nil ==> len(packed) >= 2 && len(packed) - 2 <= 65535 &&
 //@             packed[0] * 256 + packed[1] == len(packed) - 2
+//@   ensures the-length-then-exactly-the-packed-bytes: err == nil ==> len(packed) == pkLen + 2 && (forall j int :: 0 <= j && j < pkLen ==> packed[2 + j] == pk[j])
 //@   ensures err != nil ==> packed == nil
 
 //@ func findOption[*github.com/miekg/dns.EDNS0_TCP_KEEPALIVE]
@@ -466,3 +467,21 @@ package dnsserver
 //@             uiUser[riOfCtx(ctx).Userinfo] == basicUser(r) && uiPass[riOfCtx(ctx).Userinfo] == basicPass(r)
 //@   ensures !basicAuthOK(r) ==> riOfCtx(ctx).Userinfo == nil
 //@   ensures r.TLS != nil ==> riOfCtx(ctx).TLSServerName == r.TLS.ServerName
+
+// ---------------------------------------------------------------------------
+// C01 / C08 (stream transports: TCP, DoT, DoQ): what is written for a response
+// is the two-byte length of its packed form followed by exactly the packed
+// bytes - whether the packer used the pooled buffer or a new one, and whatever
+// the buffer held before.
+//
+// pk / pkLen: the bytes the packer produced last (this package's view of
+// miekg's Msg.PackBuffer: some byte string, possibly written into buf's
+// memory, possibly into new memory).
+//@ ghost pk map[int]int
+//@ ghost pkLen int
+//@ func (*dns.Msg).PackBuffer
+//@   params m, buf
+//@   results msg, err
+//@   requires m != nil
+//@   modifies allelems(byte), m.Compress, pk, pkLen
+//@   ensures err == nil ==> pkLen == len(msg) && (forall j int :: 0 <= j && j < len(msg) ==> pk[j] == msg[j]) && (arr(msg) == arr(buf) || fresh(msg))
